@@ -18,7 +18,7 @@ from simcan.core import Ctx, Tape, Violation, HarnessError, Hang
 VERIF = os.path.dirname(os.path.dirname(os.path.abspath(__file__)))
 EVIDENCE_DIR = os.environ.get("VERIF_EVIDENCE_DIR") or os.path.join(VERIF, "evidence")
 REPLAY_DIR = os.environ.get("VERIF_REPLAY_DIR") or os.path.join(VERIF, "replays")
-FINDINGS = os.path.join(VERIF, "known_findings.json")
+FINDINGS = os.environ.get("VERIF_FINDINGS") or os.path.join(VERIF, "known_findings.json")
 NWORKERS = int(os.environ.get("VERIF_WORKERS", "16"))
 
 
